@@ -4,9 +4,10 @@
 import PowHsm.Spec.C18
 import PowHsm.Admin.Commands
 import PowHsm.Proofs.Monad
+import PowHsm.Proofs.Admin
 namespace PowHsm
 namespace Props.C18
-open Admin
+open Admin Ledger Generated M
 
 /-- the model's PIN policy is the property's: 8 alphanumerics with at least one letter, unless
     any-PIN was explicitly allowed (then: alphanumerics only) -/
@@ -32,9 +33,7 @@ theorem onboard_bad_pin_no_contact (o : Options) (p : String) (w : World)
     (hp : o.pin = some p) (hv : pinValid (utf8 p) false = false) (ho : o.hasOutput = true) :
     (doOnboard o w).val = .error .exception ∧ (doOnboard o w).evs = [] := by
   unfold doOnboard
-  simp only [M.bind_apply, Ledger.getWorld, ho, hp, hv, adminError, M.throw', Bool.not_true, Bool.and_false,
-    Bool.false_eq_true, if_false]
-  simp
+  simp [M.bind_apply, Ledger.getWorld, ho, hp, hv, adminError, M.throw', onboardOptPin]
 
 /-- the confirmation loop proceeds only on an explicit yes -/
 theorem confirm_needs_yes (w : World) (h : (confirm w).val = .ok ()) :
@@ -67,6 +66,59 @@ theorem confirm_needs_yes (w : World) (h : (confirm w).val = .ok ()) :
     cases b with
     | true => exact key _ _ hg
     | false => simp [hg] at h
+
+/-- **onboarding changes the device only under its preconditions**: if any of SEED, SEND_PIN,
+    WIPE or SGX_ONBOARD is sent during `do_onboard`, then the device checks had handed over with
+    bootloader mode, a matching echo and "not onboarded" (as reported in this very run), the
+    operator had answered yes, and the PIN that is sent satisfies the policy (8 alphanumerics with
+    a letter, or alphanumerics when any-PIN was allowed) — for every device behaviour and every
+    operator script -/
+theorem onboard_destructive_only_after_checks (o : Options) (w : World)
+    (h : (doOnboard o w).evs.all notDestructive = false) :
+    ∃ w0 e1 w1, onboardChecks w0 = ⟨.ok (Mode_BOOTLOADER.toNat, true, false), e1, w1⟩ ∧
+      (confirm w1).val = .ok () ∧ Spec.C18.operatorSaidYes w1.stdinLines = true ∧
+      ∃ pin seed w2, pinValid pin o.anyPin = true ∧ ((onboardDevice seed pin) w2).evs.all notDestructive = false := by
+  unfold doOnboard at h
+  obtain ⟨w', _, wa, _, h⟩ := Emits.bind_split getWorld_emits h
+  split at h
+  · simp [adminError, M.throw'] at h
+  · obtain ⟨pin, _, w0, hpin, h⟩ := Emits.bind_split (onboardOptPin_emits o) h
+    have hp := onboardOptPin_returns o wa pin (by rw [hpin])
+    unfold onboardCore at h
+    obtain ⟨x, e1, w1, hc, h⟩ := Emits.bind_split onboardChecks_nd h
+    obtain ⟨hx1, hx2, hx3⟩ := onboardChecks_returns w0 x (by rw [hc])
+    obtain ⟨m, e, ob⟩ := x
+    simp only at hx1 hx2 hx3
+    subst hx1 hx2 hx3
+    obtain ⟨_, _, w2, hcf, h⟩ := Emits.bind_split confirm_emits h
+    obtain ⟨p, _, w3, hpn, h⟩ := Emits.bind_split (onboardPin_emits o pin) h
+    have hpol := onboardPin_returns o pin hp w2 p (by rw [hpn])
+    obtain ⟨wx, _, w4, _, h⟩ := Emits.bind_split getWorld_emits h
+    have hdev := Emits.bind_left (fun _ => disposeHsm_nd) h
+    exact ⟨w0, e1, w1, hc, by rw [hcf], confirm_needs_yes w1 (by rw [hcf]), p, wx.seed, w4, hpol, hdev⟩
+
+/-- **unlocking sends a PIN only to an onboarded device in bootloader mode**: if any PIN-bearing
+    message (SEND_PIN, UNLOCK, SGX_UNLOCK, …) is sent during `do_unlock`, the checks had handed over
+    with bootloader mode, "onboarded" and a matching echo, as reported by the device in this run -/
+theorem unlock_pin_only_after_checks (o : Options) (exit noExec : Bool) (w : World)
+    (h : (doUnlock o exit noExec w).evs.all notPin = false) :
+    ∃ w0 e1 w1, unlockChecks w0 = ⟨.ok (Mode_BOOTLOADER.toNat, true, true), e1, w1⟩ := by
+  unfold doUnlock at h
+  have hopt : Emits notPin (match o.pin with
+      | some p => if pinValid (utf8 p) o.anyPin then pure (some (utf8 p)) else adminError
+      | none => (pure none : M (Option Bytes))) := by
+    split
+    · split
+      · exact Emits.pure _
+      · exact adminError_emits
+    · exact Emits.pure _
+  obtain ⟨pin, _, w0, _, h⟩ := Emits.bind_split hopt h
+  obtain ⟨x, e1, w1, hc, _⟩ := Emits.bind_split unlockChecks_notPin h
+  obtain ⟨h1, h2, h3⟩ := unlockChecks_returns w0 x (by rw [hc])
+  obtain ⟨m, ob, e⟩ := x
+  simp only at h1 h2 h3
+  subst h1 h2 h3
+  exact ⟨w0, e1, w1, hc⟩
 
 end Props.C18
 end PowHsm
